@@ -6,6 +6,7 @@ import numpy as np
 import common
 import gen
 import refsym
+import replaylib as rl
 from c09 import value_eq
 
 IMPORTS = ('From SV Require Import Base.Sym Base.Tensor Gen.PhasePerm Model.SymInst Model.Sectors Model.Array Model.Arith Model.Fermi Model.Fused.\n')
@@ -113,6 +114,10 @@ def run(ctx):
         if {tuple(s[i] for i in axa) for s in a.blocks} != {tuple(s[j] for j in axb) for s in b.blocks}:
             stats['different_sectors'] += 1
         desc = {'symmetry': sym, 'a': describe(a), 'b': describe(b), 'axes': [axa, axb]}
+
+        def rp(oracle, **pr):
+            # complete, re-executable description of this case (only built when something is found)
+            return rl.record(oracle, {'a': a, 'b': b}, {'symmetry': sym, 'fermionic': ferm, 'axes': [axa, axb], **pr})
         ring = gen.ring_of(a, b)
         A = '%s %s' % (sym, ring)
         gar = (lambda x: gen.gfarray(x, sym, ring)) if ferm else (lambda x: gen.garray(x, sym, ring))
@@ -124,13 +129,13 @@ def run(ctx):
             ctx.count(3)
             for m in ('fused', 'auto'):
                 if not same_result(res[m], res['blockwise']):
-                    found.append({'op': 'tensordot mode=%s vs blockwise' % m, **desc})
+                    found.append({'op': 'tensordot mode=%s vs blockwise' % m, **desc, 'replay': rp('strategies')})
             for m in ('blockwise', 'fused'):
                 exprs.append('match %s %s %s %s %s %s with Some c => %s %s c %s | None => false end' % (
                     tdm, A, gar(a), gar(b), gaxes_spec(axa, axb), MODES[m], eqb, A, gar(res[m])))
                 meta.append(('tensordot-' + m, sym, k))
         except Exception as e:
-            found.append({'op': 'tensordot', **desc, 'raised': '%s: %s' % (type(e).__name__, e)})
+            found.append({'op': 'tensordot', **desc, 'raised': '%s: %s' % (type(e).__name__, e), 'replay': rp('strategies')})
             continue
         c0 = res['blockwise']
         # ---- (2) a free leg that was fused beforehand stays fused, all strategies agree
@@ -156,7 +161,8 @@ def run(ctx):
                 for m in ('fused', 'auto'):
                     if not same_result(rf[m], rf['blockwise']):
                         found.append({'op': 'tensordot with a pre-fused free leg, mode=%s vs blockwise' % m, **desc, 'prefused_axes': g,
-                                      'rank_fused_mode': rf[m].ndim, 'rank_blockwise': rf['blockwise'].ndim})
+                                      'rank_fused_mode': rf[m].ndim, 'rank_blockwise': rf['blockwise'].ndim,
+                                      'replay': rp('prefused', prefused_axes=g)})
                 # fusing free legs before or after contraction is equivalent: unfusing the pre-fused
                 # leg of the result gives the plain contraction (values compared in the operands' free tables)
                 cand = rf['blockwise']
@@ -170,16 +176,19 @@ def run(ctx):
                 d_after = gen.densify(c0, indices=free)
                 d_before = gen.densify(un, indices=free)
                 if not np.array_equal(d_after, d_before):
-                    found.append({'op': 'fuse free legs before vs after contraction', **desc, 'prefused_axes': g})
+                    found.append({'op': 'fuse free legs before vs after contraction', **desc, 'prefused_axes': g,
+                                  'replay': rp('prefused', prefused_axes=g)})
                 after = c0.fuse(tuple(la.index(x) for x in g))
                 if after.ndim != cand.ndim:
-                    found.append({'op': 'fuse free legs before vs after contraction (rank)', **desc, 'prefused_axes': g})
+                    found.append({'op': 'fuse free legs before vs after contraction (rank)', **desc, 'prefused_axes': g,
+                                  'replay': rp('prefused', prefused_axes=g)})
                 for m in ('blockwise', 'fused'):
                     exprs.append('match %s %s %s %s %s %s with Some c => %s %s c %s | None => false end' % (
                         tdm, A, gar(af), gar(b), gaxes_spec(axa_f, axb), MODES[m], eqb, A, gar(rf[m])))
                     meta.append(('tensordot-prefused-' + m, sym, k))
             except Exception as e:
-                found.append({'op': 'tensordot with a pre-fused free leg', **desc, 'prefused_axes': g, 'raised': '%s: %s' % (type(e).__name__, e)})
+                found.append({'op': 'tensordot with a pre-fused free leg', **desc, 'prefused_axes': g, 'raised': '%s: %s' % (type(e).__name__, e),
+                              'replay': rp('prefused', prefused_axes=g)})
         # ---- (3) contraction commutes with fusing the contracted legs (after aligning)
         if len(axa) >= 2:
             for fmode in (('insert', 'concat') if not ferm else (None,)):
@@ -196,10 +205,12 @@ def run(ctx):
                     c1 = sr.tensordot(a3, b3, axes=([pa], [pb]), mode='blockwise', preserve_array=True)
                     # c1's free legs: a's free legs in order, then b's — same as c0
                     if not same_result(c1.sync_charges() if False else c1, c0):
-                        found.append({'op': 'contract fused pair (strategy %s) vs contract all pairs' % fmode, **desc})
+                        found.append({'op': 'contract fused pair (strategy %s) vs contract all pairs' % fmode, **desc,
+                                      'replay': rp('fuse_contracted', fuse_mode=fmode)})
                     ctx.nontrivial(('prefuse', sym, ferm, str(sorted(a.blocks)), str(sorted(b.blocks)), str(axa), str(axb), fmode))
                 except Exception as e:
-                    found.append({'op': 'align + fuse + contract', **desc, 'fuse_mode': fmode, 'raised': '%s: %s' % (type(e).__name__, e)})
+                    found.append({'op': 'align + fuse + contract', **desc, 'fuse_mode': fmode, 'raised': '%s: %s' % (type(e).__name__, e),
+                                  'replay': rp('fuse_contracted', fuse_mode=fmode)})
         if k < 2:
             ctx.sample(desc)
     # ---- exhaustive single-block removal on small rank-4 x rank-3 structures (two free + two
@@ -231,10 +242,12 @@ def run(ctx):
                                 okk = okk and same_result(c1, r['blockwise'])
                             if not okk:
                                 found.append({'op': 'strategies / pre-fused route disagree with one block removed', 'symmetry': sym,
-                                              'a': describe(aa), 'b': describe(bb), 'axes': list(axes), 'removed_block': [which, list(map(str, sdrop))]})
+                                              'a': describe(aa), 'b': describe(bb), 'axes': list(axes), 'removed_block': [which, list(map(str, sdrop))],
+                                              'replay': rl.record('single_drop', {'a': aa, 'b': bb}, {'symmetry': sym, 'axes': list(axes)})})
                         except Exception as e:
                             found.append({'op': 'contraction with one block removed', 'symmetry': sym, 'a': describe(aa), 'b': describe(bb),
-                                          'axes': list(axes), 'raised': '%s: %s' % (type(e).__name__, e)})
+                                          'axes': list(axes), 'raised': '%s: %s' % (type(e).__name__, e),
+                                          'replay': rl.record('single_drop', {'a': aa, 'b': bb}, {'symmetry': sym, 'axes': list(axes)})})
             ctx.nontrivial(('single-drop', sym, ferm, str(cms), str(dus)))
     bad_idx = common.run_cases(ctx, 'fused', IMPORTS, '', exprs, shard=30)
     tie_broken = []
@@ -248,10 +261,11 @@ def run(ctx):
         if f['op'] in seen or len(seen) >= 5:
             continue
         seen.add(f['op'])
-        ctx.violation('%s' % f['op'], {'oracle': 'strategies / fusing routes compared on the implementation', **f})
+        ctx.violation('%s' % f['op'], {'oracle': 'strategies / fusing routes compared on the implementation', **f, 'run': rl.run_info(ctx)})
     ctx.broken += tie_broken
     if (not ok or tie_broken) and not found:
-        ctx.violation('proof obligation or tie of C06 no longer checks', {'broken': ctx.broken}, found_input=False)
+        ctx.violation('proof obligation or tie of C06 no longer checks',
+                      {'broken': ctx.broken, 'replay': rl.record('proof_phase')}, found_input=False)
     ctx.extra['case_classes'] = stats
     ctx.extra['tie'] = {'model_cases': len(exprs)}
     ctx.coverage['rule'] = ('random contractible pairs (rank 2-4, four symmetries, abelian and fermionic with pending signs and odd parity, sparse '
@@ -259,7 +273,137 @@ def run(ctx):
                             'align_axes with both fuse strategies; non-trivial = pre-fused leg or pre-fused contracted pair; distinct by structure')
 
 
+# ------------------------------------------------------------------ replay
+def _differ(x, y):
+    """why same_result(x, y) is False, for the report"""
+    if not same_structure(x, y):
+        return 'index structure differs (rank %d vs %d)' % (x.ndim, y.ndim)
+    if x.charge != y.charge:
+        return 'charge %r vs %r' % (x.charge, y.charge)
+    if hasattr(x, 'oddpos') and [(o.label, o.dual) for o in x.oddpos] != [(o.label, o.dual) for o in y.oddpos]:
+        return 'odd-position labels %r vs %r' % (x.oddpos, y.oddpos)
+    return 'values differ'
+
+
+def _strategies(sr, a, b, axa, axb):
+    """section (1) of the check: fused and auto against blockwise"""
+    try:
+        res = {m: sr.tensordot(a, b, axes=(axa, axb), mode=m, preserve_array=True) for m in ('blockwise', 'fused', 'auto')}
+    except Exception as e:
+        return None, [{'what': 'tensordot(a, b, axes=%r) raises in one of the strategies' % ((axa, axb),), 'expected': 'a result',
+                       'got': '%s: %s' % (type(e).__name__, e)}]
+    fails = []
+    for m in ('fused', 'auto'):
+        if not same_result(res[m], res['blockwise']):
+            fails.append({'what': 'tensordot(a, b, axes=%r, mode=%r) vs mode=\'blockwise\': %s' % ((axa, axb), m, _differ(res[m], res['blockwise'])),
+                          'expected': describe(res['blockwise']), 'got': describe(res[m])})
+    return res, fails
+
+
+def _rp_strategies(sr, ins, pr, r):
+    return _strategies(sr, ins['a'], ins['b'], *pr['axes'])[1]
+
+
+def _rp_prefused(sr, ins, pr, r):
+    """section (2): a free leg of `a` fused beforehand"""
+    a, b = ins['a'], ins['b']
+    axa, axb = pr['axes']
+    g = tuple(pr['prefused_axes'])
+    la = [i for i in range(a.ndim) if i not in axa]
+    rb = [j for j in range(b.ndim) if j not in axb]
+    res, fails = _strategies(sr, a, b, axa, axb)
+    if res is None:
+        return fails
+    fails = []          # the plain strategies are another record's business
+    c0 = res['blockwise']
+    try:
+        af = a.fuse(g)
+        new_pos = {}
+        position = min(g)
+        order = [ax for ax in range(position) if ax not in g] + [g] + [ax for ax in range(position, a.ndim) if ax not in g]
+        for p, ax in enumerate(order):
+            if ax == g:
+                continue
+            new_pos[ax] = p
+        axa_f = [new_pos[i] for i in axa]
+        rf = {m: sr.tensordot(af, b, axes=(axa_f, axb), mode=m, preserve_array=True) for m in ('blockwise', 'fused', 'auto')}
+        for m in ('fused', 'auto'):
+            if not same_result(rf[m], rf['blockwise']):
+                fails.append({'what': 'tensordot(a.fuse(%r), b, axes=%r, mode=%r) vs blockwise: %s' % (g, (axa_f, axb), m, _differ(rf[m], rf['blockwise'])),
+                              'expected': 'rank %d, %s' % (rf['blockwise'].ndim, describe(rf['blockwise'])['blocks']),
+                              'got': 'rank %d, %s' % (rf[m].ndim, describe(rf[m])['blocks'])})
+        cand = rf['blockwise']
+        pos_c = [ax for ax in order if ax == g or (ax in la)].index(g)
+        un = cand.unfuse(pos_c)
+        legs_un = [ax for ax in order if ax == g or (ax in la)]
+        legs_un = legs_un[:pos_c] + list(g) + legs_un[pos_c + 1:]
+        perm = [legs_un.index(ax) for ax in la] + list(range(len(la), un.ndim))
+        un = un.transpose(tuple(perm))
+        free = [a.indices[i] for i in la] + [b.indices[j] for j in rb]
+        d_after = gen.densify(c0, indices=free)
+        d_before = gen.densify(un, indices=free)
+        if not np.array_equal(d_after, d_before):
+            fails.append({'what': 'fusing free legs %r before the contraction and unfusing afterwards vs the plain contraction' % (g,),
+                          'expected': d_after.tolist() if d_after.size < 300 else 'large', 'got': d_before.tolist() if d_before.size < 300 else 'large'})
+        after = c0.fuse(tuple(la.index(x) for x in g))
+        if after.ndim != cand.ndim:
+            fails.append({'what': 'rank of fuse-before vs fuse-after the contraction', 'expected': after.ndim, 'got': cand.ndim})
+    except Exception as e:
+        fails.append({'what': 'tensordot with the free legs %r fused beforehand raises' % (g,), 'expected': 'a result', 'got': '%s: %s' % (type(e).__name__, e)})
+    return fails
+
+
+def _rp_fuse_contracted(sr, ins, pr, r):
+    """section (3): align, fuse the contracted legs, contract the single fused pair"""
+    a, b = ins['a'], ins['b']
+    axa, axb = pr['axes']
+    fmode = pr.get('fuse_mode')
+    res, fails = _strategies(sr, a, b, axa, axb)
+    if res is None:
+        return fails
+    c0 = res['blockwise']
+    try:
+        a2, b2 = a.align_axes(b, (tuple(axa), tuple(axb)))
+        if fmode is None:
+            a3, b3 = a2.fuse(tuple(axa)), b2.fuse(tuple(axb))
+        else:
+            a3, b3 = a2.fuse(tuple(axa), mode=fmode), b2.fuse(tuple(axb), mode=fmode)
+        pa, pb = min(axa), min(axb)
+        if not a2.blocks or not b2.blocks:
+            return []
+        c1 = sr.tensordot(a3, b3, axes=([pa], [pb]), mode='blockwise', preserve_array=True)
+        if not same_result(c1, c0):
+            return [{'what': 'contract the fused pair (fuse strategy %s) vs contract all pairs: %s' % (fmode, _differ(c1, c0)),
+                     'expected': describe(c0), 'got': describe(c1)}]
+    except Exception as e:
+        return [{'what': 'align + fuse (%s) + contract raises' % fmode, 'expected': 'a result', 'got': '%s: %s' % (type(e).__name__, e)}]
+    return []
+
+
+def _rp_single_drop(sr, ins, pr, r):
+    aa, bb = ins['a'], ins['b']
+    axes = tuple(pr['axes'])
+    try:
+        rr = {m: sr.tensordot(aa, bb, axes=axes, mode=m, preserve_array=True) for m in ('blockwise', 'fused')}
+        fails = []
+        if not same_result(rr['fused'], rr['blockwise']):
+            fails.append({'what': 'tensordot(a, b, axes=%r): fused vs blockwise: %s' % (axes, _differ(rr['fused'], rr['blockwise'])),
+                          'expected': describe(rr['blockwise']), 'got': describe(rr['fused'])})
+        a2, b2 = aa.align_axes(bb, (tuple(axes[0]), tuple(axes[1])))
+        if a2.blocks and b2.blocks:
+            c1 = sr.tensordot(a2.fuse(tuple(axes[0])), b2.fuse(tuple(axes[1])), axes=([2], [0]), mode='blockwise', preserve_array=True)
+            if not same_result(c1, rr['blockwise']):
+                fails.append({'what': 'align + fuse + contract vs blockwise: %s' % _differ(c1, rr['blockwise']),
+                              'expected': describe(rr['blockwise']), 'got': describe(c1)})
+        return fails
+    except Exception as e:
+        return [{'what': 'contraction with one block removed raises', 'expected': 'a result', 'got': '%s: %s' % (type(e).__name__, e)}]
+
+
+ORACLES = {'strategies': _rp_strategies, 'prefused': _rp_prefused, 'fuse_contracted': _rp_fuse_contracted, 'single_drop': _rp_single_drop}
+
+
 def replay(path):
-    r = json.load(open(path))
-    print(json.dumps(r, indent=1)[:4000])
-    return 0
+    """re-run the recorded failing case against $SYMMRAY_REPO: 1 = still fails, 0 = passes now"""
+    import sys
+    return rl.dispatch(path, 'C06', ORACLES, sys.modules[__name__])
